@@ -111,6 +111,9 @@ func runC02(tp *sim.Tape, opt sim.RunOpt) *sim.Outcome {
 	case "flow":
 		src = generateFlowProgram(tp)
 		name, mech = "generated-flow", lastGenMech
+	case "expr":
+		src = generateExprProgram(tp)
+		name, mech = "generated-expr", lastGenMech
 	default:
 		src = generate(tp)
 		name, mech = "generated", lastGenMech
